@@ -123,7 +123,7 @@ func c08observe(rep *lib.Report, base *c08base, w *World, model map[string]int, 
 func TestC08(t *testing.T) {
 	rep := lib.NewReport("C08", "model_checking")
 	defer rep.Finish(t)
-	rep.Rule = "BFS over all histories of set(r,l,b)/delete(r,l), r in {a,ab}, l in {x,x-y,v1.0.0}, b in {B1,B2}, de-duplicated on the label map, to the fixed point (3^6 states); each state rebuilt on a fresh clone of the real stores; after every step: get of every (r,l), ListLabels with prefixes {'',x,v} x page sizes 1..4, and the write journal (exactly one key written, under labels/<r>/<l>/; bundles and other labels untouched); name acceptance: every string of length <=2 over {a,7,-,_,.,/,space,é,#} + hostile names: if the API accepts the name, get must resolve it and listing must return it together with the other labels; distinct = distinct label maps / names"
+	rep.Rule = "BFS over all histories of set(r,l,b)/delete(r,l), r in {a,ab}, l in {x,x-y,v1.0.0}, b in {B1,B2}, de-duplicated on the label map, to the fixed point (3^6 states); each state rebuilt on a fresh clone of the real stores; after every step: get of every (r,l), ListLabels with prefixes {'',x,v} x page sizes 1..4, and the write journal (exactly one key written, under labels/<r>/<l>/; bundles and other labels untouched); name acceptance: every string of length <=2 over {a,7,-,_,.,/,space,é,#} + hostile names: if the API accepts the name, get must resolve it and listing must return it together with the other labels; label listings (page size 2, with and without prefix) under every single transient fault at each metadata call: an error or exactly the live labels; distinct = distinct label maps / names"
 	base := c08mkbase()
 	var alphabet []c08op
 	for _, r := range c08repos {
@@ -247,4 +247,6 @@ func TestC08(t *testing.T) {
 			}
 		})
 	}
+	// ---- label listings under a transient store fault
+	listingFaultSweep(t, rep, "C08", []string{"labels"})
 }
